@@ -895,13 +895,21 @@ func (c *checker) handleViolations(bin string, br *batchResult, extraEnv []strin
 				got = c.crashViolation(small, rv)
 			}
 		}
-		if !sameFailure(got, final) && final.Class == "race" {
-			// fall back to the unminimised trace, which a fresh process already reproduced once
-			rf.Trace, rf.Note = tr, "not minimised: the minimised schedule did not reproduce reliably under the race detector"
+		if !sameFailure(got, final) {
+			// fall back to the unminimised trace, which a fresh process already reproduced
+			// once: the in-process minimiser is not faithful when the failure depends on
+			// state a change keeps outside the trees (package-level caches), and under the
+			// race detector a shrunk schedule may not reproduce reliably
+			rf.Trace, rf.Violation, rf.Note = tr, want, "not minimised: the minimised trace did not reproduce in a fresh process"
+			final = want
 			writeJSON(rp, rf)
+			got = nil
 			for a := 0; a < tries && !sameFailure(got, final); a++ {
 				rv := c.execFile(bin, rp, extraEnv, 5*time.Minute)
 				got = rv.Violation
+				if got == nil {
+					got = c.crashViolation(tr, rv)
+				}
 			}
 		}
 		if !sameFailure(got, final) {
